@@ -1222,6 +1222,40 @@ def m_collect(I, fr, a, ck):
     return res
 
 
+def m_option_unwrap_or_default(I, fr, a, ck):
+    """Option<T>::unwrap_or_default for the T this code base uses it with (Vec / String / integers by the call's type)"""
+    v = a[0]
+    raw = ck.raw or ''
+    m = re.match(r'^Option::<(.*)>::unwrap_or_default', raw)
+    ty = m.group(1).strip() if m else ''
+    if ty.startswith('Vec<'):
+        d = Seq(())
+    elif ty in ('String', 'std::string::String'):
+        d = Str('')
+    elif ty in ('usize', 'u64', 'i64', 'u32', 'i32'):
+        d = 0
+    elif ty == 'bool':
+        d = False
+    else:
+        raise Unsupported('unwrap_or_default of Option<%s>' % ty)
+    res = d
+    if 1 in v.alts:
+        res = merge(v.alts[1][0], v.alts[1][1][0], d) if 0 in v.alts and not g_false(v.alts[0][0]) else v.alts[1][1][0]
+    return res
+
+
+def m_vec_split_off(I, fr, a, ck):
+    """Vec::split_off(at): self keeps [0, at), returns [at, len); panics when at > len"""
+    s = _seq(I, fr, a[0])
+    at = a[1]
+    if not isinstance(at, int):
+        raise Unsupported('split_off at a symbolic index')
+    if at > len(s.items):
+        return Outs([panic(True, '`at` split index (is %d) should be <= len (is %d)' % (at, len(s.items)))])
+    write_mref(I, fr, a[0], Seq(s.items[:at]))
+    return Seq(s.items[at:])
+
+
 def m_itertools_join(I, fr, a, ck):
     """Itertools::join(sep): Display of every item, separated"""
     it = to_iter(I, fr, I.peel_all(a[0], fr) if isinstance(a[0], (SRef, MRef)) else a[0])
@@ -1784,7 +1818,15 @@ def m_rc_ptr_eq(I, fr, a, ck):
         return True
     # pointer identity is not modelled: equal pointers imply equal contents, nothing more is known
     e, p = _single_bool(I, fr, value_eq_call(I, fr, x, y))
-    return gand(I.fresh_bool('ptr_eq'), e)
+
+    def own(v):
+        o = getattr(v, 'owned', False)
+        if isinstance(o, Prov):
+            return o.alts.get('T', False)
+        return o is True
+    # two table-owned nodes of equal structure are one allocation (the sharing invariant); otherwise unknown
+    both = gand(own(x), own(y)) if isinstance(x, RcV) and isinstance(y, RcV) else False
+    return gand(e, gor(both, I.fresh_bool('ptr_eq')))
 
 
 def m_option_map(I, fr, a, ck):
@@ -2275,6 +2317,8 @@ def register_ints(M):
     A('String', 'Add', 'add', m_string_add)
     A('slice', None, 'join', m_slice_join)
     A(None, 'Itertools', 'join', m_itertools_join)
+    A('Option', None, 'unwrap_or_default', m_option_unwrap_or_default)
+    A('Vec', None, 'split_off', m_vec_split_off)
     A('slice', None, 'concat', m_slice_join)
     for t in ('usize', 'u64', 'i64', 'isize', 'u32', 'i32', 'u8', 'u16'):
         for m in ('max', 'min', 'clamp'):
